@@ -67,6 +67,8 @@ static inline uint64_t vtape_next(void)
 #define __CPROVER_ensures(...)
 #define __CPROVER_assigns(...)
 #define __CPROVER_frees(...)
+/* native reading of "p points into the array a" (second argument must be an array object) */
+#define __CPROVER_same_object(p, a) ((const char *)(p) >= (const char *)(a) && (const char *)(p) < (const char *)(a) + sizeof(a))
 #define __CPROVER_assume(c) ASSUME(c)
 #define __CPROVER_assert(c, m) CHECK(c, m)
 #define VERIF_MAIN(h)                                                              \
